@@ -3,7 +3,7 @@ From MoPep Require Import Model.Base Model.Gvf Gen.GvfConst Model.GvfGen.
 Open Scope Z_scope.
 
 Definition err_code (e : err) : Z :=
-  match e with EValue => 1 | EKey => 2 | EIndex => 3 | EType => 4 end.
+  match e with EValue => 1 | EKey => 2 | EIndex => 3 | EType => 4 | EUnicode => 5 end.
 Definition of_res {A} (f : A -> val) (r : res A) : val :=
   match r with Ok a => VL [VZ 0; f a] | Err e => VL [VZ (err_code e); VL []] end.
 
